@@ -20,7 +20,7 @@ def ctor_objects(log, layer):
             inside = True
         elif k == "ctor<" and e[2] == layer:
             break
-        elif inside and k == "locknew" and e[2].startswith("R") and R is None:
+        elif inside and k == "locknew" and e[2].startswith("R") and R is None and (len(e) < 4 or e[3] != "ShutdownHelper"):
             R = e[2]
         elif inside and k == "evnew":
             E = e[2]
@@ -41,7 +41,12 @@ def call_outcomes(log):
     return res
 
 
+def gate_locks(log):
+    return set(e[2] for e in log if e[1] == "locknew" and len(e) > 3 and e[3] == "ShutdownHelper")
+
+
 def project_worker(log, desc, layer="L0"):
+    gates = gate_locks(log)
     _R, E, worker = ctor_objects(log, layer)
     if E is None or worker is None:
         raise ProjError("constructor of %s: event=%r worker=%r" % (layer, E, worker))
@@ -84,7 +89,7 @@ def project_worker(log, desc, layer="L0"):
             if c["kind"] == "shutdown" and shutter == t and k == "ret":
                 out.append("A sdRet %d" % t)
                 shutter = None
-        elif k == "acq" and e[2].startswith("L"):
+        elif k == "acq" and e[2] in gates:
             held[(t, e[2])] = held.get((t, e[2]), 0) + 1
             c = ctx.get(t)
             if c is not None and not c["gated"] and (G is None or e[2] == G):
@@ -104,7 +109,7 @@ def project_worker(log, desc, layer="L0"):
                         flipping = t
                     else:
                         out.append("A sdNoop %d" % t)
-        elif k == "rel" and e[2].startswith("L"):
+        elif k == "rel" and e[2] in gates:
             held[(t, e[2])] = held.get((t, e[2]), 1) - 1
             c = ctx.get(t)
             if e[2] == G and c is not None and c["kind"] == "submit" and c["entered"] and held[(t, e[2])] == 0:
@@ -165,6 +170,7 @@ def project_worker(log, desc, layer="L0"):
 
 
 def project_cos(log, desc, layer="L0"):
+    gates = gate_locks(log)
     X, _E, _w = ctor_objects(log, layer)
     if X is None:
         raise ProjError("constructor of %s created no RLock" % layer)
@@ -207,7 +213,7 @@ def project_cos(log, desc, layer="L0"):
             c = ctx.get(t)
             if c is None or held[(t, L)] > 1:
                 continue
-            if L.startswith("L") and not c["gated"] and (G is None or L == G):
+            if L in gates and not c["gated"] and (G is None or L == G):
                 G = L
                 c["gated"] = True
                 if c["kind"] == "submit":
